@@ -297,33 +297,49 @@ impl Pattern {
      * Implement csh-style alternate matches.  Pattern::new() has already
      * verified that the pattern is valid and the braces are correctly balanced.
      *
-     * The algorithm starts at the right-most opening brace and iteratively works
-     * backwards, expanding each alternate match and recursively calling Pattern
-     * to verify that there is a match.
+     * The algorithm expands the left-most group: it finds the closing brace
+     * that belongs to it and the commas at its own depth, then substitutes
+     * each alternative in turn and recursively calls Pattern to verify that
+     * there is a match.  Groups nested inside an alternative are expanded by
+     * the recursive call, and only for the alternative that contains them, so
+     * each string of the csh expansion is tried exactly once.
      */
     fn alternate_match(pattern: &str, pkg: &str) -> bool {
-        /*
-         * Only the right-most opening brace needs to be expanded here: it is
-         * always an innermost group, so the first closing brace after it is
-         * its partner, and the recursive call expands whatever remains.
-         */
-        if let Some(i) = pattern.rfind('{') {
-            let (first, rest) = pattern.split_at(i);
-            /* This shouldn't fail as new() already verified, but... */
-            let Some(n) = rest.find('}') else {
-                return false;
-            };
-            let (matches, last) = rest.split_at(n + 1);
-            let matches = &matches[1..matches.len() - 1];
-
-            for m in matches.split(',') {
-                let fmt = format!("{}{}{}", first, m, last);
-                if let Ok(pat) = Pattern::new(&fmt) {
-                    if pat.matches(pkg) {
-                        return true;
+        let Some(start) = pattern.find('{') else {
+            return false;
+        };
+        let mut depth = 0;
+        let mut end = None;
+        let mut commas = vec![];
+        for (i, ch) in pattern[start..].char_indices() {
+            match ch {
+                '{' => depth += 1,
+                '}' => {
+                    depth -= 1;
+                    if depth == 0 {
+                        end = Some(start + i);
+                        break;
                     }
                 }
+                ',' if depth == 1 => commas.push(start + i),
+                _ => {}
             }
+        }
+        /* This shouldn't fail as new() already verified, but... */
+        let Some(end) = end else {
+            return false;
+        };
+        let first = &pattern[..start];
+        let last = &pattern[end + 1..];
+        let mut from = start + 1;
+        for to in commas.into_iter().chain(std::iter::once(end)) {
+            let fmt = format!("{}{}{}", first, &pattern[from..to], last);
+            if let Ok(pat) = Pattern::new(&fmt) {
+                if pat.matches(pkg) {
+                    return true;
+                }
+            }
+            from = to + 1;
         }
         false
     }
